@@ -113,7 +113,8 @@ fn run<E: Elem>(t: &Trace, record: bool) -> RunResult {
         cx.cov(&[1000, prev_kind, op.kind as u64]);
         prev_kind = op.kind as u64;
         ledger::op_end(i as u32, cx.op_panicked as u32);
-        w.walk(&mut cx, drop_fired);
+        let _ = drop_fired;
+        w.walk(&mut cx);
         check_alloc_flags(&cx);
         if let Some(v) = ledger::violation() {
             violation = Some(Viol {
@@ -131,7 +132,7 @@ fn run<E: Elem>(t: &Trace, record: bool) -> RunResult {
     w.teardown(&mut cx);
     ledger::op_end(n as u32, 0);
     if violation.is_none() {
-        w.walk(&mut cx, false);
+        w.walk(&mut cx);
         check_alloc_flags(&cx);
         if cx.checks.c16 {
             let live = alloc::live_workload_blocks() - base_blocks;
@@ -152,6 +153,8 @@ fn run<E: Elem>(t: &Trace, record: bool) -> RunResult {
             });
         }
     }
+    // whatever this run leaked (legally or not) must not reach the next run
+    alloc::sweep_workload_blocks();
     if alloc::flags() & alloc::F_TABLE_FULL != 0 {
         eprintln!("HARNESS-ERROR allocator table full");
         std::process::exit(2);
